@@ -327,7 +327,36 @@ func TestVerifC13(t *testing.T) {
 			o.verdict("C13", fmt.Sprintf("s%d_plant%d", si, k), what == "", true, "plant:"+hxs(unknown)+"|"+strings.Join(vhexAll(values), ","), map[string]interface{}{"what": what, "unknown_hex": hxs(unknown), "values_hex": vhexAll(values), "planted": vi, "threshold": th})
 		}
 	}
-	o.stat("C13", map[string]interface{}{"value_sets": nsets, "addvalue_calls": nAdd, "plantings": nPlant})
+	// stage v1uniq: Matches.uniquify on random rank-ordered lists (short ranges over a small text, so
+	// that beginnings inside, at the end of and right behind earlier ranges all occur), against
+	// LC/Model/V1Uniq; the kept matches are named by their rank
+	nU := 300
+	if vthorough() {
+		nU = 20000
+	}
+	for i := 0; i < nU; i++ {
+		rr := r.fork(uint64(700000 + i))
+		var ms Matches
+		var fs []string
+		for j, n := 0, rr.intn(9); j < n; j++ {
+			off, ext := rr.intn(40), rr.intn(14)
+			if j > 0 && rr.chance(1, 4) { // right behind / at the start of an earlier one
+				e := ms[rr.intn(len(ms))]
+				off = e.Offset + []int{e.Extent, e.Extent + 1, 0, e.Extent - 1}[rr.intn(4)]
+				if off < 0 {
+					off = 0
+				}
+			}
+			ms = append(ms, &Match{Name: fmt.Sprint(j), Confidence: 1.0 - float64(j)/100, Offset: off, Extent: ext})
+			fs = append(fs, fmt.Sprintf("%d,%d", off, ext))
+		}
+		var kept []string
+		for _, m := range ms.uniquify() {
+			kept = append(kept, m.Name)
+		}
+		o.corr("v1uniq", fmt.Sprintf("u%d", i), []string{strings.Join(fs, ";")}, strings.Join(kept, " "))
+	}
+	o.stat("C13", map[string]interface{}{"value_sets": nsets, "addvalue_calls": nAdd, "plantings": nPlant, "uniquify_lists": nU})
 }
 
 func vidx(name string) int {
